@@ -283,18 +283,16 @@ def r14_4_5(ctx) -> None:
               construct="KeySet.__init__")
     imp = ks.methods["import_key_set"]
     cfgm = cfg_of(imp)
-    loops = [l for l in cfgm.nodes if l.kind == "loop" and norm(l.ast.iter) == f"{imp.pos_params[1]}['keys']"]
-    okm = len(loops) == 1
-    if okm:
-        L = loops[0]
-        appc = [n for n in fn_nodes(imp) if isinstance(n, ast.Call) and isinstance(n.func, ast.Attribute) and n.func.attr == "append" and isinstance(n.func.value, ast.Name)
-                and n.args and "import_key(" in norm(n.args[0]) and norm(L.ast.target) in norm(n.args[0])]
-        acc = {n.func.value.id for n in appc}
-        apps = [cfgm.node_of(n) for n in appc]
-        apps = [a for a in apps if a is not None]
-        okm = bool(apps) and len(acc) == 1 and all(L not in cfgm.reachable(s0, apps) or s0 in apps for s0 in succ_by_label(cfgm, L, "iter"))
-        rets = cfgm.returns()
-        okm = okm and all(norm(r.ast.value) == f"{imp.self_name or 'cls'}({next(iter(acc))})" for r in rets)
+    from .common import built_lists
+    KEYS = f"{imp.pos_params[1]}['keys']"
+    bl = [b for b in built_lists(imp) if norm(b["iter"]) == KEYS and not b["ifs"] and "import_key(" in norm(b["elt"]) and b["var"] in norm(b["elt"])]
+    rets = cfgm.returns()
+    okm = len(bl) == 1 and bool(rets) and all(norm(r.ast.value) == f"{imp.self_name or 'cls'}({bl[0]['name']})" for r in rets)
+    if not okm:
+        # `return cls([import_key(d) for d in value['keys']])` without a local
+        okm = bool(rets) and all(isinstance(r.ast.value, ast.Call) and norm(r.ast.value.func) == (imp.self_name or "cls") and len(r.ast.value.args) == 1
+                                 and isinstance(r.ast.value.args[0], ast.ListComp) and len(r.ast.value.args[0].generators) == 1 and not r.ast.value.args[0].generators[0].ifs
+                                 and norm(r.ast.value.args[0].generators[0].iter) == KEYS and "import_key(" in norm(r.ast.value.args[0].elt) for r in rets)
     ctx.check(okm, "R14.5", imp, imp.node, f"{imp.short}", "import_key_set does not import and keep every key of the serialization", "for data in value['keys']: keys.append(import_key(data)); return cls(keys)",
               construct="import_key_set")
     ad = ks.methods["as_dict"]
